@@ -8,6 +8,12 @@ use std::sync::atomic::{AtomicBool, AtomicU64, Ordering};
 use std::sync::{Arc, Mutex};
 use std::time::{Duration, Instant};
 
+/// set by `--light` (interpreter / valgrind slices): per-case inner loops shrink
+pub static LIGHT: AtomicBool = AtomicBool::new(false);
+pub fn per_case(n: usize) -> usize {
+    if LIGHT.load(Ordering::Relaxed) { (n / 15).max(2) } else { n }
+}
+
 #[derive(Clone, Copy, Debug, PartialEq, Eq)]
 pub enum Tier {
     Quick,
@@ -27,6 +33,8 @@ pub struct Ctx {
     pub out: String,
     pub known: Vec<Value>,
     pub replay: Option<String>,
+    /// wall watchdog per case (s); only ever produces "inconclusive"
+    pub case_limit_s: u64,
 }
 
 impl Ctx {
@@ -210,7 +218,7 @@ where
         handles.push(h);
     }
     // watchdog loop
-    let case_limit = Duration::from_secs(30);
+    let case_limit = Duration::from_secs(ctx.case_limit_s);
     let mut stuck: Vec<u64> = vec![];
     loop {
         std::thread::sleep(Duration::from_millis(20));
@@ -245,7 +253,7 @@ where
     }
     let mut rep = std::mem::replace(&mut *total.lock().unwrap(), Report::new());
     for c in stuck {
-        rep.inconclusive("watchdog: case exceeded 30 s wall clock");
+        rep.inconclusive("watchdog: case exceeded its wall clock limit");
         rep.count_n("stuck_case_index_sum", c);
     }
     rep
